@@ -1425,6 +1425,7 @@ package sod
 //@ assume [single-collection] forallk(t, string, imp(has(db.schemas, t), t == T))
 //@ ensures [C10 fac.done] imp(last == nil && old(has(db.schemas, T)), forallk(u, string, !pend(db, db.schemas[T], u)) && committed(db, db.schemas[T]))
 //@ ensures [C01 fac.wf] wfDB(db)
+//@ ensures [fac.table] forallk(t, string, imp(has(db.schemas, t), t == T))
 //@ modifies Ghost.FSk, Ghost.FSc, MapDom[string,Object], MapCard[string,Object], Async.routineStarted, MapDom[string,*Schema]@db.schemas, MapVal[string,*Schema]@db.schemas, MapCard[string,*Schema]@db.schemas
 
 //@ func (*DB).Close
@@ -1555,3 +1556,28 @@ package sod
 //@ loop 2 invariant [indexed-on-disk] forallk(u, string, imp(has(idx.uuids, u) && visited(u), has(uuids, u) && uuids[u]))
 //@ modifies nothing
 //@ allocates Elem[interface{}], Elem[string], MapDom[string,bool], MapVal[string,bool], MapCard[string,bool], Elem[os.DirEntry], MapDom[string,FieldDescriptor], MapVal[string,FieldDescriptor], MapCard[string,FieldDescriptor], FieldDescriptor.Path, FieldDescriptor.Type, FieldDescriptor.Constraints
+
+// ---- background flusher (C10, C08, C09, C17) --------------------------------------------
+
+//@ func (*DB).mustFlushAsyncW
+//@ serves C08 C09 C10 C17
+//@ requires [wf] wfDB(db) && s != nil && allocated(s) && imp(s.AsyncWrites != nil, allocated(s.AsyncWrites)) && s.object != nil
+//@ requires [C09 lock-free] lockFree()
+//@ ensures [C17 flusher-nil-safe] imp(result, asyncOn(s))
+//@ ensures [C10 flush-when-due] result == (asyncOn(s) && len(db.asyncw.m[stypeOf(dyntype(s.object))].m) > 0 && has(db.asyncw.m, stypeOf(dyntype(s.object))) && (len(db.asyncw.m[stypeOf(dyntype(s.object))].m) >= s.AsyncWrites.Threshold || slept >= s.AsyncWrites.Timeout))
+//@ ensures [C08 one-section] ACQ_H == old(ACQ_H) + 1
+//@ modifies Ghost.ACQ_H
+
+//@ func (*DB).startAsyncWritesRoutine$1
+//@ serves C08 C09 C10 C17
+//@ requires [wf] wfDB(*db) && (*db).ctx != nil && *s != nil && allocated(*s) && (*s).object != nil && imp((*s).AsyncWrites != nil, allocated((*s).AsyncWrites))
+//@ requires [C09 lock-free] lockFree()
+//@ assume [single-collection] forallk(t, string, imp(has((*db).schemas, t), t == stypeOf(dyntype((*s).object))))
+//@ may_panic "a storage error during a background flush panics (library design: the error has no caller to return to)"
+//@ skip overflow "slept grows by one poll step (100 ms) per iteration: int64 nanoseconds overflow after 292 years"
+//@ ensures [C10 flusher-runs-until-cancelled] CTX != 0
+//@ loop 1 invariant [frame] preserved(Cell[*DB], Cell[*Schema], Cell[time.Duration], Schema.object, Schema.AsyncWrites)
+//@ loop 1 invariant [state] lockFree() && wfDB(*db) && *s != nil && allocated(*s) && (*s).object != nil && imp((*s).AsyncWrites != nil, allocated((*s).AsyncWrites)) && forallk(t, string, imp(has((*db).schemas, t), t == stypeOf(dyntype((*s).object))))
+//@ loop 2 invariant [frame] preserved(Cell[*DB], Cell[*Schema], Cell[time.Duration], Schema.object, Schema.AsyncWrites)
+//@ loop 2 invariant [state] lockFree() && wfDB(*db) && *s != nil && allocated(*s) && (*s).object != nil && imp((*s).AsyncWrites != nil, allocated((*s).AsyncWrites)) && forallk(t, string, imp(has((*db).schemas, t), t == stypeOf(dyntype((*s).object))))
+//@ modifies Ghost.CTX, Ghost.ACQ_H, Ghost.FSk, Ghost.FSc, MapDom[string,Object], MapCard[string,Object], Async.routineStarted, MapDom[string,*Schema], MapVal[string,*Schema], MapCard[string,*Schema]
